@@ -702,7 +702,9 @@ func c20PolyCurve[P curves.Point[P, F, S], F algebra.FiniteFieldElement[F], S al
 		}
 		// ---- Lift / LeftAction / RightAction
 		for k := 0; k < 3; k++ {
-			m, kk, n := 1+r.IntN(2), 1+r.IntN(3), 1+r.IntN(2)
+			// shapes up to 3×3 so that non-square actors with both dimensions >= 2 (where row-major and
+			// column-major addressing differ) occur on both sides
+			m, kk, n := 1+r.IntN(3), 1+r.IntN(3), 1+r.IntN(3)
 			aRows := c20ScalarRows(r, f, m, kk)
 			rRows := c20ScalarRows(r, f, kk, n)
 			modA, _ := mat.NewMatrixModule(uint(m), uint(kk), f)
@@ -754,7 +756,7 @@ func c20PolyCurve[P curves.Point[P, F, S], F algebra.FiniteFieldElement[F], S al
 				}
 			}
 			if k == 1 || k == 2 { // lift(R, g) · B
-				q := 1 + r.IntN(2)
+				q := 1 + r.IntN(3)
 				bRows := c20ScalarRows(r, f, n, q)
 				modB, _ := mat.NewMatrixModule(uint(n), uint(q), f)
 				B, errB := modB.New(bRows)
